@@ -309,3 +309,15 @@ def loop_exits(body, blocks):
             if s not in blocks:
                 out.append((b, s))
     return out
+
+
+DEBUG_ASSERT_MACROS = ("debug_assert!", "debug_assert_eq!", "debug_assert_ne!")
+
+
+def is_debug_assert(term):
+    """A diverging call that is the failure arm of a debug_assert*!: the maintainers' executable statement of an invariant.
+    All analyses treat it as an assumption (the arm is not followed, the site is not a may-panic site) and count it."""
+    if term.get("k") != "call" or term.get("target") is not None:
+        return False
+    sp = term.get("span") or {}
+    return any(m in DEBUG_ASSERT_MACROS for m in sp.get("macros", []))
